@@ -274,6 +274,73 @@ func runC19(r *core.Run) {
 		}
 	}
 
+	// ---- (b2) odd tables x statement kinds x formats: whatever the file looks like, no statement fails internally ----
+	{
+		type shape struct{ name, csv string }
+		mk := func(ext string, sh shape) string {
+			rows := [][]string{}
+			for _, ln := range strings.Split(strings.TrimSuffix(sh.csv, "\n"), "\n") {
+				if sh.csv == "" {
+					break
+				}
+				rows = append(rows, strings.Split(ln, ","))
+			}
+			switch ext {
+			case "csv":
+				return sh.csv
+			case "tsv":
+				return strings.ReplaceAll(sh.csv, ",", "\t")
+			case "json", "jsonl", "ltsv":
+				if len(rows) == 0 {
+					return ""
+				}
+				return tableText(ext, rows)
+			}
+			return sh.csv
+		}
+		shapes := []shape{{"empty", ""}, {"header-only", "c1,c2\n"}, {"header-no-newline", "c1,c2"}, {"one-row", "c1,c2\n1,a\n"}, {"blank-line", "c1,c2\n\n"},
+			{"newline-only", "\n"}, {"one-cell", "x"}, {"empty-names", ",\n1,2\n"}, {"dup-names", "c1,c1\n1,2\n"}}
+		queries := []string{"SELECT * FROM %s", "SELECT COUNT(*) FROM %s", "SELECT COUNT(*), SUM(c1), MAX(c2) FROM %s", "SELECT c1, COUNT(*) FROM %s GROUP BY c1",
+			"SELECT DISTINCT * FROM %s", "SELECT * FROM %s ORDER BY 1 LIMIT 1", "SELECT *, ROW_NUMBER() OVER () AS rn FROM %s", "SELECT * FROM %s x JOIN %s y ON x.c1 = y.c1",
+			"SELECT * FROM %s UNION SELECT * FROM %s", "INSERT INTO %s VALUES (7, 'z'); SELECT * FROM %s", "UPDATE %s SET c2 = 'q'; COMMIT", "DELETE FROM %s; COMMIT",
+			"ALTER TABLE %s ADD c9 DEFAULT 1; COMMIT", "ALTER TABLE %s DROP c1; COMMIT", "SHOW FIELDS FROM %s", "DECLARE cc CURSOR FOR SELECT * FROM %s; OPEN cc; FETCH LAST cc INTO @%%HOME"}
+		var stmts []string
+		var tags []string
+		files := map[string]string{}
+		for _, ext := range []string{"csv", "tsv", "json", "jsonl", "ltsv"} {
+			for _, sh := range shapes {
+				name := sh.name + "." + ext
+				files[name] = mk(ext, sh)
+				for qi, q := range queries {
+					// every statement works on the pristine files: changes are rolled back (COMMITs inside are part of the statement
+					// under test and are followed by restoring nothing - the later statements on that file only need not to fail internally)
+					stmts = append(stmts, strings.ReplaceAll(q, "%s", "`"+name+"`")+"; ROLLBACK;")
+					tags = append(tags, fmt.Sprintf("%s:%s:q%d", ext, sh.name, qi))
+				}
+			}
+		}
+		cl, er := isolatedExec(r, stmts, files)
+		for i := range stmts {
+			r.Distinct("odd:" + tags[i])
+			add(map[string]interface{}{"kind": "nofatal", "class": cl[i]}, stmts[i]+" -> "+er[i], "internal-failure:odd-table:"+tags[i][strings.Index(tags[i], ":")+1:]+":"+failKind(er[i]))
+		}
+		r.Coverage["odd_table_statements"] = len(stmts)
+		// hostile column names through every output format
+		var hs []string
+		for _, names := range [][2]string{{"a", "a.b"}, {"a.b", "a"}, {"a.b", "a.b.c"}, {"", "x"}, {"a", "A"}, {"a b", "a,b"}, {"1", "2"}, {"a\"b", "c"}, {"a:b", "c"}, {"[0]", "x[1]"}, {"a..b", ".c"}, {"a\tb", "c"}} {
+			for _, f := range []string{"CSV", "TSV", "LTSV", "FIXED", "JSON", "JSONL", "GFM", "ORG", "BOX", "TEXT"} {
+				hs = append(hs, fmt.Sprintf("SET @@FORMAT TO %s; SELECT 1 AS `%s`, 2 AS `%s`;", f, strings.ReplaceAll(names[0], "`", ""), strings.ReplaceAll(names[1], "`", "")))
+			}
+		}
+		cl, er = isolatedExec(r, hs, map[string]string{})
+		for i := range hs {
+			r.Distinct("hdr:" + hs[i])
+			f := strings.Fields(hs[i])[3]
+			add(map[string]interface{}{"kind": "nofatal", "class": cl[i]}, hs[i]+" -> "+er[i], "internal-failure:column-names:"+strings.TrimSuffix(f, ";")+":"+failKind(er[i]))
+		}
+		r.Coverage["column_name_statements"] = len(hs)
+	}
+
 	// ---- (c) boundary arguments of every built-in function and numeric clause ----
 	bargs := []string{"0", "-1", "1", "9223372036854775807", "-9223372036854775808", "1e308", "-1e308", "FLOAT('NaN')", "FLOAT('Inf')", "NULL", "''", "'abc'", "TRUE",
 		"'2012-02-03'", "2.5", "100000"}
@@ -322,14 +389,14 @@ func runC19(r *core.Run) {
 			"DECLARE c CURSOR FOR SELECT id FROM t; OPEN c; VAR @x; FETCH ABSOLUTE "+a+" c INTO @x; FETCH RELATIVE "+a+" c INTO @x;",
 			"SELECT id FROM t WHERE id IN (SELECT id FROM t LIMIT "+a+");", "SELECT LISTAGG(v, "+a+") FROM t;", "SELECT id, SUM(id) OVER (ORDER BY id ROWS BETWEEN 1 PRECEDING AND CURRENT ROW) FROM t LIMIT "+a+";")
 	}
-	classes, errs := isolatedExec(r, stmts, "id,v\n1,a\n2,b\n3,\n")
+	classes, errs := isolatedExec(r, stmts, map[string]string{"t.csv": "id,v\n1,a\n2,b\n3,\n"})
 	for i, s := range stmts {
 		r.Distinct(s)
 		fn := s
 		if k := strings.IndexAny(strings.TrimPrefix(s, "SELECT "), "( "); k > 0 {
 			fn = strings.TrimPrefix(s, "SELECT ")[:k]
 		}
-		add(map[string]interface{}{"kind": "nofatal", "class": classes[i]}, s+" -> "+errs[i], "internal-failure:"+fn+":"+failKind(errs[i]))
+		add(map[string]interface{}{"kind": "nofatal", "class": classes[i]}, s+" -> "+errs[i], "internal-failure:"+fn+":"+failKind(errs[i])+argClasses(s))
 	}
 	r.Sample(map[string]interface{}{"boundary_statements": len(stmts), "example": stmts[len(stmts)/3]})
 
@@ -493,6 +560,43 @@ func runC19(r *core.Run) {
 }
 
 // failKind reduces the message of an internal failure to its kind (makeslice, slice bounds, index out of range ...)
+// argClasses names the classes of the arguments of a boundary call ("huge" = magnitude from 2^62, "big" = 100000), so
+// that a known finding about one class does not hide a failure on another.
+func argClasses(stmt string) string {
+	i, j := strings.Index(stmt, "("), strings.LastIndex(stmt, ")")
+	if !strings.HasPrefix(stmt, "SELECT ") || i < 0 || j < i || strings.Contains(stmt, " FROM ") {
+		return ""
+	}
+	var out []string
+	for _, a := range strings.Split(stmt[i+1:j], ", ") {
+		c := "text"
+		switch a {
+		case "9223372036854775807", "-9223372036854775808", "1e308", "-1e308":
+			c = "huge"
+		case "100000":
+			c = "big"
+		case "0":
+			c = "zero"
+		case "-1":
+			c = "neg"
+		case "1", "2.5":
+			c = "small"
+		case "NULL":
+			c = "null"
+		case "''":
+			c = "empty"
+		case "TRUE":
+			c = "bool"
+		case "FLOAT('NaN')", "FLOAT('Inf')":
+			c = "naninf"
+		case "'2012-02-03'":
+			c = "date"
+		}
+		out = append(out, c)
+	}
+	return ":" + strings.Join(out, ",")
+}
+
 func failKind(e string) string {
 	e = strings.TrimPrefix(e, "[Fatal Error] ")
 	e = strings.TrimPrefix(e, "runtime error: ")
@@ -557,7 +661,13 @@ func execWorker(args []string) int {
 				cl, e = "fatal", firstLine(res.Err)
 			}
 			fmt.Fprintf(out, "D %d %s %s\n", i, cl, strings.ReplaceAll(e, "\n", " "))
-			if res.Fatal || res.Err != "" && strings.Contains(stmts[i], "DECLARE") {
+			if res.Fatal {
+				// a recovered panic may leave process-wide state of csvq (the goroutine budget) inconsistent: what the
+				// following statements do in this process would not be what a fresh csvq does
+				out.Flush()
+				return 3
+			}
+			if res.Err != "" && strings.Contains(stmts[i], "DECLARE") {
 				p.End()
 				p = nil
 			}
@@ -574,7 +684,7 @@ func execWorker(args []string) int {
 }
 
 // isolatedExec returns, per statement, the class ("ok" | "fatal") and the error text of fatal ones.
-func isolatedExec(r *core.Run, orig []string, tcsv string) ([]string, []string) {
+func isolatedExec(r *core.Run, orig []string, files map[string]string) ([]string, []string) {
 	// neighbours (the same function with other arguments) go to different workers: the slow ones spread out
 	nw := 8
 	var perm []int
@@ -587,7 +697,7 @@ func isolatedExec(r *core.Run, orig []string, tcsv string) ([]string, []string) 
 	for k, i := range perm {
 		stmts[k] = orig[i]
 	}
-	pc, pe := isolatedExecOrdered(r, stmts, tcsv, nw)
+	pc, pe := isolatedExecOrdered(r, stmts, files, nw)
 	classes := make([]string, len(orig))
 	errs := make([]string, len(orig))
 	for k, i := range perm {
@@ -596,7 +706,7 @@ func isolatedExec(r *core.Run, orig []string, tcsv string) ([]string, []string) 
 	return classes, errs
 }
 
-func isolatedExecOrdered(r *core.Run, stmts []string, tcsv string, nw int) ([]string, []string) {
+func isolatedExecOrdered(r *core.Run, stmts []string, files map[string]string, nw int) ([]string, []string) {
 	classes := make([]string, len(stmts))
 	errs := make([]string, len(stmts))
 	self, err := os.Executable()
@@ -608,7 +718,9 @@ func isolatedExecOrdered(r *core.Run, stmts []string, tcsv string, nw int) ([]st
 	chunk := (len(stmts) + nw - 1) / nw
 	core.Parallel(nw, nw, func(w int) {
 		dir := r.Dir(fmt.Sprintf("iso%d", w))
-		writeFile(filepath.Join(dir, "t.csv"), tcsv)
+		for n, c := range files {
+			writeFile(filepath.Join(dir, n), c)
+		}
 		from, to := w*chunk, (w+1)*chunk
 		if to > len(stmts) {
 			to = len(stmts)
